@@ -16,13 +16,19 @@ CHUNK_MIN = 64   # enum requests are heavy: spread them over all cores
 
 RULE = ("exhaustive: every string of length <= 5 (quick) / 6 (thorough) over {x,y,2,3,0,.,^,+,-,/,*,(,),space,#} through both "
         "parsers (digest per 2-symbol prefix class, refined to a single string on any difference), plus grammatical strings "
-        "mutated with arbitrary Unicode and extreme exponent magnitudes. Non-trivial = a prefix class in which at least one "
+        "mutated with arbitrary Unicode and extreme exponent magnitudes; exhaustive also over {x,X,y,k,e-acute,Omega,2,^,+,-,.,space} to "
+        "length 5/6, over all 52 ASCII letters + {2,^,+,-,.,space,/,e-acute} to length 3/4 and over {x,y,2,^,+,-,.,/} to length 6/7; "
+        "two/three-letter templates in either case; oracle-only texts with characters of every Unicode class (look-alikes of the "
+        "operators, non-ASCII digits, letters of every UTF-8 width, all white space) and texts of 10^5..10^6 characters / "
+        "thousands of terms with their exact meaning; every text through the trait and the free-function entry points. Non-trivial = a prefix class in which at least one "
         "string is accepted, or a single text the model accepts; distinct = distinct request lines (each enum request stands for "
         "15^(L-2)-ish distinct strings, counted in coverage.notes)")
 
 def compare(req, impl, model):
     from __main__ import default_compare
     r = req.split()
+    if r[0] in ("o1", "o2", "long"):
+        return None  # judged by the harness oracle alone (the model's character table does not cover these texts)
     if r[0] == "parse1":
         return _c01.compare("parse 0 " + " ".join(r[1:]), impl, model)
     if r[0] == "parse2":
@@ -31,32 +37,46 @@ def compare(req, impl, model):
 
 def nontrivial(req, model):
     r = req.split()
-    if r[0] == "enum":
+    if r[0] in ("enum", "enumx"):
         return int(model.split()[1]) > 0
+    if r[0] in ("o1", "o2", "long"):
+        return True
     return model.startswith("ok")
 
 def tag(req, model):
     r = req.split(); m = model.split()
-    if r[0] == "enum":
-        return f"enum{r[1]}:" + ("some-accepted" if int(m[1]) > 0 else "all-rejected")
+    if r[0] in ("enum", "enumx"):
+        return f"{r[0]}{r[1]}:" + ("some-accepted" if int(m[1]) > 0 else "all-rejected")
+    if r[0] == "long":
+        return f"long{r[1]}:kind{r[2]}"
     return r[0] + ":" + (m[0] if m else "empty") + (":" + m[1] if m and m[0] == "err" else "")
 
 def refine(req):
     """sub-requests that together cover an enum request; [] when it cannot be refined further"""
     r = req.split()
-    if r[0] != "enum":
+    if r[0] not in ("enum", "enumx"):
         return []
     parser, maxlen = r[1], int(r[2])
-    prefix, _ = read_string(r, 3)
     def enc(s):
         return f"{len(s)} " + " ".join(str(ord(c)) for c in s) if s else "0"
+    if r[0] == "enumx":
+        alpha, i = read_string(r, 3)
+        prefix, _ = read_string(r, i)
+        head = f"enumx {parser} {maxlen} {enc(alpha)}"
+    else:
+        alpha = ALPHABET
+        prefix, _ = read_string(r, 3)
+        head = f"enum {parser} {maxlen}"
     subs = [f"parse{parser} {enc(prefix)}"]
     if len(prefix) < maxlen:
-        for c in ALPHABET:
-            subs.append(f"enum {parser} {maxlen} {enc(prefix + c)}")
+        for c in alpha:
+            subs.append(f"{head} {enc(prefix + c)}")
     return subs
 
 def finish(rows, tier):
     n = sum(int(m.split()[0]) for (r, i, o, m) in rows if r.startswith("enum"))
     a = sum(int(m.split()[1]) for (r, i, o, m) in rows if r.startswith("enum"))
-    return [f"exhaustive enumeration covered {n} (parser, string) pairs, {a} accepted by the model; implementation digests compared per prefix class"]
+    nl = sum(1 for (r, i, o, m) in rows if r.startswith("long"))
+    no = sum(1 for (r, i, o, m) in rows if r.startswith("o1") or r.startswith("o2"))
+    return [f"exhaustive enumeration covered {n} (parser, string) pairs, {a} accepted by the model; implementation digests compared per prefix class",
+            f"{no} texts with characters of every Unicode class and {nl} texts of up to 10^5 (quick) / 10^6 (thorough) characters judged by the oracle alone"]
